@@ -173,6 +173,23 @@ func (w *world) issue(op *Op) string {
 			})
 		}
 		return w.call("setProto_"+iss, o, v)
+	case "enum":
+		switch iss {
+		case "forin", "forin-strict":
+			body := op.Body
+			return w.call("enum_"+iss, o, rt.ToValue(op.Step), rt.ToValue(op.Brk), rt.ToValue(func(goja.FunctionCall) goja.Value {
+				return rt.ToValue(w.issue(body))
+			}))
+		}
+		w.armed, w.bodyRes = op.Body, "-"
+		res := w.call("enum_"+iss, o)
+		w.armed = nil
+		return res + "|" + w.bodyRes
+	case "enumopen":
+		w.slotObj = op.Obj
+		return w.call("enumOpen", o)
+	case "enumnext":
+		return w.call("enumNext")
 	case "detach":
 		return w.goCall("ArrayBuffer.Detach", func() string { w.buf.Detach(); return "ok" })
 	case "paramset":
@@ -206,8 +223,84 @@ func renderGoKeys(keys []string) string {
 var issuerMap = map[string]string{"js": objmodel.JS, "jss": objmodel.JSStrict, "object": objmodel.ObjectFn, "objects": objmodel.ObjectPl,
 	"reflect": objmodel.ReflectF, "go": objmodel.GoAPI, "field": objmodel.Field, "pie": objmodel.PropIsEn}
 
-// modelIssue performs the op on the model; ok=false when the model left its domain.
+// modelIssue performs the op on the model; ood != nil when the model left its domain.
 func (w *world) modelIssue(op *Op) (res string, ood *objmodel.OutOfDomain) {
+	ood = w.m.Try(func() { res = w.modelOp(op) })
+	return
+}
+
+func renderEntries(es []objmodel.Entry) string {
+	var b strings.Builder
+	b.WriteByte('[')
+	for i, e := range es {
+		if i > 0 {
+			b.WriteByte(',')
+		}
+		b.WriteString(objmodel.RenderKey(e.K) + "=" + objmodel.RenderValue(e.V))
+	}
+	b.WriteByte(']')
+	return b.String()
+}
+
+// modelEnum is the model side of enumerate-with-mutation.
+func (w *world) modelEnum(op *Op) string {
+	m, o := w.m, w.mobjs[op.Obj]
+	switch op.Iss {
+	case "forin", "forin-strict":
+		var visited []objmodel.Key
+		bodyRes := "-"
+		it := m.NewForIn(o)
+		for n := 0; ; n++ {
+			k, ok := it.Next()
+			if !ok {
+				break
+			}
+			visited = append(visited, k)
+			if n == op.Step {
+				loose := w.c.Kind == "ta" || w.enumTrigger(op.Obj, op.Body)
+				bodyRes = w.modelOp(op.Body)
+				if op.Brk {
+					break
+				}
+				if loose {
+					// §14.7.5.9: after a removal / prototype or enumerability change (and for typed arrays at all) only the
+					// general rules bind the rest of the enumeration: "~<exact prefix>~<key that must not follow>|<body>"
+					forbidden := ""
+					// the deleted property is ignored — unless the key is (still) reachable through the prototype chain
+					if op.Body.Op == "delete" && op.Body.Obj == op.Obj && !ownOnChain(m, o, objmodel.ToPropertyKey(w.modelKeyValue(op.Body.Key, false))) {
+						forbidden = objmodel.RenderKey(objmodel.ToPropertyKey(w.modelKeyValue(op.Body.Key, false)))
+					}
+					return "~" + objmodel.RenderKeys(visited) + "~" + forbidden + "|" + bodyRes
+				}
+			}
+		}
+		if w.c.Kind == "ta" {
+			return "~[]~|" + bodyRes
+		}
+		return objmodel.RenderKeys(visited) + "|" + bodyRes
+	}
+	w.mArmed, w.mBodyRes = op.Body, "-"
+	es, thr := m.CopyEnumerableOwn(o, op.Iss == "entries")
+	w.mArmed = nil
+	if thr != nil {
+		return objmodel.RenderThrow(thr) + "|" + w.mBodyRes
+	}
+	if op.Iss != "entries" {
+		// Object.assign(Object.create(null), o) / {__proto__: null, ...o}: the result is rendered in its own key order
+		t := objmodel.NewObject("tmp", nil)
+		for _, e := range es {
+			m.CreateDataProperty(t, e.K, e.V)
+		}
+		es = es[:0]
+		for _, k := range m.OwnPropertyKeys(t) {
+			es = append(es, objmodel.Entry{K: k, V: t.RawProp(k).Value})
+		}
+	}
+	return renderEntries(es) + "|" + w.mBodyRes
+}
+
+// modelOp performs the op on the model (an OutOfDomain panic travels to the caller's Try).
+func (w *world) modelOp(op *Op) string {
 	mo := objmodel.Op{Kind: op.Op, Issuer: issuerMap[op.Iss], O: w.mobjs[op.Obj]}
 	if op.Key != "" {
 		mo.K = w.modelKeyValue(op.Key, op.Num && op.Iss != "go")
@@ -236,19 +329,36 @@ func (w *world) modelIssue(op *Op) (res string, ood *objmodel.OutOfDomain) {
 		mo.D = d
 	case "detach":
 		w.mobjs["T"].Detach()
-		return "ok", nil
+		return "ok"
 	case "paramset":
 		if w.params[op.Idx] != nil {
 			*w.params[op.Idx] = w.modelValue(op.Val)
 		}
-		return "ok", nil
+		return "ok"
+	case "enum":
+		return w.modelEnum(op)
+	case "enumopen":
+		w.mIter = w.m.NewForIn(w.mobjs[op.Obj])
+		w.mIterLoose = w.c.Kind == "ta"
+		w.slotSeen = map[string]bool{}
+		return "ok"
+	case "enumnext":
+		if w.mIter == nil {
+			return "none"
+		}
+		if w.mIterLoose {
+			return "~next"
+		}
+		if k, ok := w.mIter.Next(); ok {
+			return objmodel.RenderKey(k)
+		}
+		return "done"
 	}
 	if op.Recv != "" {
 		rv := w.modelValue(op.Recv)
 		mo.Recv = &rv
 	}
-	ood = w.m.Try(func() { res = w.m.Exec(mo) })
-	return
+	return w.m.Exec(mo)
 }
 
 // exec runs one op in this world: issue, collect the accessor log, observe the touched objects, compare with the
@@ -261,14 +371,35 @@ func (w *world) exec(i int, op *Op) stepRec {
 		fmt.Printf("  [%s] op %d %s ...", w.tag, i, op)
 	}
 	before := w.last[op.Obj]
+	if w.spec && !w.modelDead && w.mIter != nil && !w.mIterLoose && isMutator(op.Op) {
+		b := op
+		if op.Body != nil {
+			b = op.Body
+		}
+		if w.enumTrigger(w.slotObj, b) {
+			w.mIterLoose = true
+		}
+	}
 	rec.raw = w.issue(op)
 	if w.mon.trace {
 		fmt.Printf(" -> %s\n", rec.raw)
 	}
+	if op.Op == "enumnext" && strings.HasPrefix(rec.raw, "s:") {
+		if w.slotSeen[rec.raw] {
+			w.stop("enumeration-duplicate-key", "op %d %s: the open for-in enumeration of %s produced %s twice", i, op, w.slotObj, rec.raw)
+		}
+		if w.slotSeen != nil {
+			w.slotSeen[rec.raw] = true
+		}
+	}
 	rec.log = w.call("takeLog")
 	if conv := w.call("takeConv"); conv != "" && w.spec {
 		// legitimate only where the operation converts an object *value* (ToNumber for typed-array elements / array length)
-		legit := (op.Op == "set" || op.Op == "define") && op.Val != "" && (isObjectValue(op.Val) || op.Val == "E1")
+		vop := op
+		if op.Body != nil {
+			vop = op.Body
+		}
+		legit := (vop.Op == "set" || vop.Op == "define") && vop.Val != "" && (isObjectValue(vop.Val) || vop.Val == "E1")
 		if quarantine[qErrMsgConv] && (op.Op == "delete" || op.Op == "setProto" || op.Key == "__proto__") {
 			legit = true // listed finding: error messages of failing delete / setPrototypeOf stringify the object
 		}
@@ -290,6 +421,12 @@ func (w *world) exec(i int, op *Op) stepRec {
 			}
 		default:
 			st.Inc("model_results_compared")
+			if strings.HasPrefix(exp, "~") {
+				if why := looseEnumMismatch(w, exp, rec.raw); why != "" {
+					w.stop("model-result", "op %d %s: %s (objmodel: %s, goja: %s)", i, op, why, exp, rec.raw)
+				}
+				exp = rec.raw
+			}
 			if exp != rec.raw {
 				w.stop("model-result", "op %d %s: objmodel expects %s, goja produced %s", i, op, exp, rec.raw)
 			}
@@ -304,8 +441,25 @@ func (w *world) exec(i int, op *Op) stepRec {
 	}
 	// observe the touched objects
 	touched := []string{op.Obj}
-	if op.Recv != "" && w.objs[op.Recv] != nil && op.Recv != op.Obj && isWorldObject(op.Recv) {
-		touched = append(touched, op.Recv)
+	addTouched := func(n string) {
+		if n == "" || !isWorldObject(n) {
+			return
+		}
+		for _, x := range touched {
+			if x == n {
+				return
+			}
+		}
+		touched = append(touched, n)
+	}
+	addTouched(op.Recv)
+	if op.Body != nil {
+		addTouched(op.Body.Obj)
+		addTouched(op.Body.Recv)
+	}
+	if op.Op == "enumnext" {
+		touched = touched[:0]
+		addTouched(w.slotObj)
 	}
 	for _, n := range touched {
 		rec.dumps[n] = w.observe(n, op.Key)
@@ -406,4 +560,86 @@ func (w *world) integrityKeepsValues(op *Op, before, after string) {
 			w.stop("integrity-op-changed-value", "op %d %s changed the value of %s from %s to %s (SetIntegrityLevel only changes attributes)\n  before: %s\n  after:  %s", w.opIndex, op, p.key, p.value, q.value, before, after)
 		}
 	}
+}
+
+// enumTrigger reports whether mutator b ends the exact-behaviour guarantee of a for-in enumeration over object o
+// (§14.7.5.9: a property removed from O or its chain, a prototype changed, a property added to an object of the chain,
+// [[Enumerable]] changed).  Conservative: everything except a plain assignment to / a definition of a new property
+// on O itself counts.
+func (w *world) enumTrigger(o string, b *Op) bool {
+	if b == nil || !isMutator(b.Op) {
+		return false
+	}
+	if b.Obj != o || b.Key == "__proto__" || b.Key == "length" {
+		return true
+	}
+	switch b.Op {
+	case "set":
+		return b.Recv != "" && b.Recv != o
+	case "define":
+		if w.m == nil {
+			return true
+		}
+		return w.m.GetOwnProperty(w.mobjs[o], objmodel.ToPropertyKey(w.modelKeyValue(b.Key, false))) != nil
+	}
+	return true
+}
+
+// looseEnumMismatch checks a for-in result against a loose expectation "~<exact prefix list>~<forbidden key>|<body>"
+// or "~next" (open enumeration after a trigger: any not yet produced key, or done).
+func looseEnumMismatch(w *world, exp, raw string) string {
+	if exp == "~next" {
+		if raw == "done" || strings.HasPrefix(raw, "s:") {
+			return ""
+		}
+		return "the open enumeration produced neither a key nor done"
+	}
+	parts := strings.SplitN(exp[1:], "~", 2)
+	if len(parts) != 2 {
+		return "bad loose expectation"
+	}
+	prefix := parts[0]
+	forbidden, body, _ := strings.Cut(parts[1], "|")
+	i := strings.LastIndex(raw, "]|")
+	if i < 0 || raw[0] != '[' {
+		return "for-in did not complete normally"
+	}
+	if raw[i+2:] != body {
+		return "the body mutator produced " + raw[i+2:] + ", expected " + body
+	}
+	var keys, pre []string
+	if i > 1 {
+		keys = strings.Split(raw[1:i], ",")
+	}
+	if len(prefix) > 2 {
+		pre = strings.Split(prefix[1:len(prefix)-1], ",")
+	}
+	if len(keys) < len(pre) {
+		return "keys visited before the mutation are missing"
+	}
+	seen := map[string]bool{}
+	for j, k := range keys {
+		if j < len(pre) && k != pre[j] {
+			return "keys visited before the mutation differ"
+		}
+		if seen[k] {
+			return "key " + k + " was visited twice"
+		}
+		seen[k] = true
+		if j >= len(pre) && k == forbidden && forbidden != "" {
+			return "key " + k + " was deleted before it was processed but is still visited"
+		}
+	}
+	return ""
+}
+
+// ownOnChain: some object on the prototype chain of o (o included) has an own property k — what a for-in walk can
+// meet, unlike [[HasProperty]] which typed arrays cut short for numeric keys.
+func ownOnChain(m *objmodel.Machine, o *objmodel.Object, k objmodel.Key) bool {
+	for ; o != nil; o = m.GetPrototypeOf(o) {
+		if m.GetOwnProperty(o, k) != nil {
+			return true
+		}
+	}
+	return false
 }
